@@ -296,13 +296,15 @@ def race(ctx: Ctx, rule: str = "R-C02-RACE") -> None:
 
 def survive(ctx: Ctx, rule: str = "R-C02-SURVIVE") -> None:
     f = ctx.func(f"{C.RUNNER}._run_consumer")
-    g = ctx.cfg(f)
+    from .runner import RC_EXCLUDE
+
+    g = ctx.icfg(f, exclude=RC_EXCLUDE)
     spawns = []
     inline_awaits = []
     for n in g.calls():
         if (n.callee or "").endswith("_process_with_event") or (n.callee or "").endswith(".process"):
             parent_is_task = any(isinstance(c, ast.Call) and (dotted(c.func) or "").endswith("create_task")
-                                 and any(x is n.ast for a in c.args for x in ast.walk(a)) for c in ast.walk(f.node))
+                                 and any(x is n.ast for a in c.args for x in ast.walk(a)) for c in ast.walk(n.func.node))
             (spawns if parent_is_task else inline_awaits).append(n)
     ctx.floor(rule, len(spawns), 1, "create_task(self._process_with_event(...)) sites in _run_consumer")
     ctx.check(not inline_awaits, rule, f, "processing spawned as tasks", "actor outcomes cannot propagate into the consume loop",
